@@ -577,7 +577,8 @@ pub unsafe extern "C" fn open64(path: *const std::ffi::c_char, flags: c_int, mod
     // SAFETY: the caller guarantees a valid C string.
     let name = unsafe { std::ffi::CStr::from_ptr(path) }.to_bytes();
     // the kernel's random devices, uptime and load: the machine speaking, not the input
-    if name == b"/dev/urandom" || name == b"/dev/random" || name == b"/proc/uptime" || name == b"/proc/loadavg" {
+    let kernel_id = name == b"/proc/sys/kernel/random/uuid" || name == b"/proc/sys/kernel/random/boot_id";
+    if name == b"/dev/urandom" || name == b"/dev/random" || name == b"/proc/uptime" || name == b"/proc/loadavg" || kernel_id {
         let plan = STATE
             .try_with(|s| s.try_borrow().ok().filter(|s| s.installed).map(|s| (s.key, s.clock_base, s.clock_step_ns, s.pid)))
             .unwrap_or(None);
@@ -587,6 +588,13 @@ pub unsafe extern "C" fn open64(path: *const std::ffi::c_char, flags: c_int, mod
                 let mut v: Vec<u8> = (0..65536).map(|_| (splitmix(&mut st) & 0xff) as u8).collect();
                 v[..16].copy_from_slice(&key);
                 v
+            } else if kernel_id {
+                let k = &key;
+                format!(
+                    "{:02x}{:02x}{:02x}{:02x}-{:02x}{:02x}-4{:01x}{:02x}-8{:01x}{:02x}-{:02x}{:02x}{:02x}{:02x}{:02x}{:02x}\n",
+                    k[0], k[1], k[2], k[3], k[4], k[5], k[6] & 15, k[7], k[8] & 15, k[9], k[10], k[11], k[12], k[13], k[14], k[15]
+                )
+                .into_bytes()
             } else if name == b"/proc/uptime" {
                 format!("{}.{:02} {}.00\n", clock_base % 10_000_000, clock_step % 100, clock_base % 777_777).into_bytes()
             } else {
